@@ -26,6 +26,7 @@ INLINE = e2_tree.INLINE + [
     (re.compile(r"^Key::version$"), r"key::.*::version$", "-> Key"),
     (re.compile(r"^NodeId::metadata$"), r"node_id::.*::metadata$"),
     (re.compile(r"^NodeId::version$"), r"node_id::.*::version$"),
+    (re.compile(r"^(?:key::)?Prefix::(item|tree|updated|all)$"), r"key::<impl at [^>]*>::{name}$", "-> key::Prefix"),
 ]
 
 OLD_ITEM, OLD_TREE, OLD_META = 0, 1, 2
@@ -151,6 +152,42 @@ def models():
         out = []
         for s2, present in fork_on(eng, st, b):
             out.append((mk_ok(mk_option(Agg("Metadata", None, {})) if present else mk_option()), None, s2))
+        return out
+
+    # ---- 0.5 -> 0.6 world: an index is described by two facts, "has a metadata record" and "has
+    # other keys" (items added but never built, marks, ...); prefix scans answer from both
+    @reg(r"^heed::Database::<.*>::prefix_iter::<")
+    def _(eng, st, callee, a, ty):
+        if "has_meta" not in st.env:
+            raise E.Unknown("prefix_iter outside the 0.5 -> 0.6 world")
+        p = eng.deref(a[2])
+        mode = p.f[1]
+        whole = z3.is_true(z3.simplify(mode.disc == BV(0, 64)))      # Prefix::all
+        st.env["gets"].append((z3.simplify(p.f[0]), BV(0, 64), BV(0, 32)) if not whole else ("scan-all", z3.simplify(p.f[0])))
+        kind = None if whole else z3.simplify(mode.f[0].disc)
+        return one(mk_ok(Opaque("Scan05", {"index": z3.simplify(p.f[0]), "kind": kind, "done": False})))
+
+    @reg(r"^RoPrefix::<.*>::(remap_key_type|remap_types|remap_data_type)::<")
+    def _(eng, st, callee, a, ty):
+        return one(a[0])
+
+    @reg(r"^<RoPrefix<'_, .*> as Iterator>::next$")
+    def _(eng, st, callee, a, ty):
+        sc = eng.deref(a[0])
+        d = sc.data
+        if d["done"]:
+            return one(mk_option())
+        d["done"] = True
+        if d["kind"] is None:
+            cond = z3.Or(st.env["has_meta"], st.env["has_other"])
+        elif z3.is_bv_value(d["kind"]) and d["kind"].as_long() == 0:
+            cond = st.env["has_meta"]
+        else:
+            cond = st.env["has_other"]
+        out = []
+        for s2, present in fork_on(eng, st, cond):
+            key = Agg("Key", None, {0: d["index"], 1: Opaque("some node id"), 2: BV(0, 8)})
+            out.append((mk_option(mk_ok(Agg("tuple", None, {0: key, 1: Agg("unit")}))) if present else mk_option(), None, s2))
         return out
 
     @reg(r"^<RoaringBitmap as IntoIterator>::into_iter$")
@@ -382,7 +419,9 @@ def run_0_5_to_0_6(ctx, deadline):
         return finish(res, eng)
     i = z3.BitVec("any_index", 16)
     hm = z3.Bool("index_has_metadata")
-    env = {"r": {}, "w_base": {}, "w_puts": [], "problems": [], "cleared": False, "gets": [], "any_index": i, "has_meta": hm}
+    ho = z3.Bool("index_has_other_keys")
+    env = {"r": {}, "w_base": {}, "w_puts": [], "problems": [], "cleared": False, "gets": [], "any_index": i, "has_meta": hm,
+           "has_other": ho}
     rdb, wdb = Opaque("Database", {"which": "read"}), Opaque("Database", {"which": "write"})
     finals = eng.run(fn, [Ref(Cell(Opaque("RoTxn"))), rdb, Ref(Cell(Opaque("RwTxn"))), wdb], env=env, pc=[], deadline=deadline)
     for f in finals:
@@ -418,6 +457,8 @@ def run_0_5_to_0_6(ctx, deadline):
         if has and hasnt:
             viol("the decision does not depend on the metadata lookup")
         for g in e2_["gets"]:
+            if isinstance(g[0], str):
+                continue        # a scan of the whole index: judged by its effect above
             if eng.check(f.pc, z3.Or(g[0] != i, g[1] != BV(0, 64), g[2] != BV(0, 32)))[0]:
                 viol("the metadata lookup does not use (index, Metadata, 0)")
     res["shapes"].append({"shape": "0.5 -> 0.6, arbitrary index", "paths": len(finals), "ok_paths": len(finals)})
